@@ -42,12 +42,12 @@ Definition obs_ok (s : sstate FA) (app : list (peer * float)) (o : sobs) : nat :
                 && Nat.eqb (length (topics FA ps)) (length (ob_topics po))
                 && forallb (fun te => match aget (fst te) (topics FA ps) with Some ts => tobs_ok ts (snd te) | None => false end) (ob_topics po)
             end) (so_peers o)) then 13
-  else if negb (forallb (fun e => match score FA s app (fst e) with Some v => feq v (ob_score (snd e)) | None => false end) (so_peers o)) then 14
+  else if negb (forallb (fun e => feq (score FA s app (fst e)) (ob_score (snd e))) (so_peers o)) then 14
   else 0.
 
 (* ---- monitors on the observed numbers only ---- *)
 Definition fle (a b : float) : bool := PrimFloat.leb a b.
-Definition mon_obs (P : sparams FA) (o : sobs) : nat :=
+Definition mon_obs (P : sparams FA) (op : sop FA) (o : sobs) : nat :=
   (* counters never negative, never above their caps; no NaN anywhere *)
   if existsb (fun e => PrimFloat.is_nan (ob_score (snd e))) (so_peers o) then 101
   else if existsb (fun e => negb (fle PrimFloat.zero (ob_bp (snd e)))
@@ -57,22 +57,26 @@ Definition mon_obs (P : sparams FA) (o : sobs) : nat :=
                         || match aget (fst te) (spTopics FA P) with
                            | Some tp => negb (fle (ob_fmd t) (tpFMDCap FA tp)) || negb (fle (ob_mmd t) (tpMMDCap FA tp))
                            | None => false end) (ob_topics (snd e))) (so_peers o) then 102
-  (* a retained (disconnected) entry has a non-positive score *)
-  else if existsb (fun e => negb (ob_connected (snd e)) && PrimFloat.ltb PrimFloat.zero (ob_score (snd e))) (so_peers o) then 103
+  (* right after a disconnect the entry is either gone or retained with a non-positive score *)
+  else if match op with
+          | SRemovePeer _ p _ => match aget p (so_peers o) with
+                                 | Some po => negb (ob_connected po) && PrimFloat.ltb PrimFloat.zero (ob_score po)
+                                 | None => false end
+          | _ => false end then 103
   else 0.
 
 (* after a model/implementation disagreement: keep looking for a concrete failing history with the monitor alone *)
 Fixpoint smon_only (P : sparams FA) (l : list sstepr) (idx : nat) : option (nat * nat) :=
   match l with
   | [] => None
-  | st :: l' => match mon_obs P (ss_obs st) with O => smon_only P l' (S idx) | c => Some (idx, c) end
+  | st :: l' => match mon_obs P (ss_op st) (ss_obs st) with O => smon_only P l' (S idx) | c => Some (idx, c) end
   end.
 
 Fixpoint sexec (s : sstate FA) (l : list sstepr) (idx : nat) : verdict :=
   match l with
   | [] => VOk
   | st :: l' =>
-      match mon_obs (prm FA s) (ss_obs st) with
+      match mon_obs (prm FA s) (ss_op st) (ss_obs st) with
       | O =>
           match sstep FA s (ss_op st) with
           | None => match smon_only (prm FA s) l' (S idx) with Some (i, c) => VMonFail i c | None => VMismatch idx 2 end
@@ -86,3 +90,23 @@ Fixpoint sexec (s : sstate FA) (l : list sstepr) (idx : nat) : verdict :=
   end.
 
 Definition check_scase (c : scase) : verdict := sexec (sinit FA (sc_params c)) (sc_steps c) 0.
+
+(* constructors specialised to the float instance, for the generated cases files *)
+Definition mkTP (tw timw : float) (q : Z) (timc fw fd fc mw md mc mt : float) (win act : Z) (pw pd iw id : float) : tparams FA :=
+  Build_tparams FA tw timw q timc fw fd fc mw md mc mt win act pw pd iw id.
+Definition mkSP (tl : list (topic * tparams FA)) (cap aw ipw : float) (ipt : nat) (bw bt bd dz : float) (ret ttl : Z) : sparams FA :=
+  Build_sparams FA tl cap aw ipw ipt bw bt bd dz ret ttl.
+Definition fAddPeer : peer -> sop FA := SAddPeer FA.
+Definition fRemovePeer : peer -> float -> sop FA := SRemovePeer FA.
+Definition fGraft : peer -> topic -> sop FA := SGraft FA.
+Definition fPrune : peer -> topic -> sop FA := SPrune FA.
+Definition fValidate : nat -> sop FA := SValidate FA.
+Definition fDeliver : nat -> peer -> topic -> sop FA := SDeliver FA.
+Definition fReject : nat -> peer -> topic -> reason -> sop FA := SReject FA.
+Definition fDuplicate : nat -> peer -> topic -> sop FA := SDuplicate FA.
+Definition fPenalty : peer -> Z -> sop FA := SPenalty FA.
+Definition fRefresh : sop FA := SRefresh FA.
+Definition fGc : sop FA := SGc FA.
+Definition fSetTopic : topic -> tparams FA -> sop FA := SSetTopic FA.
+Definition fSetIPs : peer -> list nat -> sop FA := SSetIPs FA.
+Definition fAdvance : Z -> sop FA := SAdvance FA.
